@@ -263,6 +263,12 @@ def r19_text_layouts(ctx):
         'leading-whitespace': ('  \n F0 05 F7', [(5,)]),
         'other-messages-dropped': ('90 01 02 F0 09 F7 F8', [(9,)]),
         'only-whitespace': (' \n ', []),
+        # "any whitespace": what str.split and the regular expression \s take for whitespace in a latin-1 text, not only the six
+        # ASCII blanks bytearray.fromhex() skips by itself
+        'no-break-spaces': ('F0\xa001\xa002\xa0F7', [(1, 2)]),
+        'unit-and-record-separators': ('F0\x1f05\x1eF7\x1cF0\x1dF7', [(5,), ()]),
+        'next-line-characters': ('F0 06 F7\x85F0 07 F7\x85', [(6,), (7,)]),
+        'vertical-tab-and-form-feed': ('F0\x0b01\x0cF7', [(1,)]),
     }
     for name, (text, want) in good.items():
         ai = make_interp(ctx)
